@@ -178,9 +178,26 @@ pub fn bracket_mismatch(text: &str, vparts: &[(usize, usize, usize)]) -> Option<
         let end = if last + 1 < spans.len() { spans[last + 1].0 } else { cs.len() };
         let mut p = spans[last].1;
         if k > 1 {
-            while p < end && is_sym_cont(cs[p]) {
-                p += 1;
+            // the entry's own last symbol: the symbol run behind the last number of an entry, wherever the layout puts it
+            // (directly behind the number or after a blank); it is the same text for every entry of the part
+            let run_after = |from: usize, to: usize| -> Option<(usize, String)> {
+                let a = (from..to).find(|i| is_sym_start(cs[*i]))?;
+                let mut b = a;
+                while b < to && is_sym_cont(cs[b]) {
+                    b += 1;
+                }
+                Some((b, cs[a..b].iter().collect()))
+            };
+            let first_entry_last = first + k - 1;
+            let Some((_, own)) = run_after(spans[first_entry_last].1, spans[first_entry_last + 1].0) else { continue };
+            let Some((after, run)) = run_after(p, end) else { continue };
+            if run != own {
+                let shown: String = cs[spans[first].0.saturating_sub(1)..(after + 1).min(cs.len())].iter().collect();
+                return Some(format!(
+                    "a vector part of {len} entries: the last entry is followed by the symbols {run:?} where every other entry is followed by {own:?} ({shown:?}): the part's symbol is attached to the last entry, inside the list"
+                ));
             }
+            p = after;
         }
         let Some(sym_at) = (p..end).find(|i| is_sym_start(cs[*i])) else { continue };
         if !cs[p..sym_at].contains(&closer) {
@@ -256,6 +273,21 @@ pub fn compare(text: &str, expect: &[Tok]) -> Option<String> {
 #[cfg(test)]
 mod tests {
     use super::*;
+    #[test]
+    fn brackets_and_symbols() {
+        assert!(bracket_mismatch("1 + [2, 3]ε", &[(1, 2, 1)]).is_none());
+        assert!(bracket_mismatch("1 + [2, 3ε]", &[(1, 2, 1)]).is_some());
+        assert!(bracket_mismatch("1 + 2, 3 ε", &[(1, 2, 1)]).is_none()); // not bracketed: no verdict
+        assert!(bracket_mismatch("1 + [2 + 3ε, 4 + 5ε]ε", &[(1, 2, 2)]).is_none());
+        assert!(bracket_mismatch("1+[2+3 ε, 4+5 ε]ε", &[(1, 2, 2)]).is_none());
+        assert!(bracket_mismatch("1 + [(2 + 3ε), (4 + 5ε)]ε", &[(1, 2, 2)]).is_none());
+        assert!(bracket_mismatch("1 + [2 + 3ε, 4 + 5εε]", &[(1, 2, 2)]).is_some());
+        assert!(bracket_mismatch("1 + [2 + 3ε, 4 + 5ε ε]", &[(1, 2, 2)]).is_some());
+        // rows of a matrix part
+        assert!(shape_mismatch("1 + [[2, 3], [4, 5]]ε", &[(1, 2, 2, 1)]).is_none());
+        assert!(shape_mismatch("1 + [2, 3, 4, 5]ε", &[(1, 2, 2, 1)]).is_some());
+        assert!(shape_mismatch("1 + [2, 3; 4, 5; 6, 7]ε", &[(1, 2, 3, 1)]).is_some());
+    }
     #[test]
     fn tokenizer_basics() {
         let t = tokenize("1.5 + [-0.1, 2]ε1 + 3e-7ε1² - 4v3");
